@@ -37,7 +37,7 @@ def sh(cmd, **kw):
 
 
 class Ctx:
-    def __init__(self, pid, tier, seed, keep=False):
+    def __init__(self, pid, tier, seed, keep=False, replaying=False):
         self.pid, self.tier, self.seed, self.keep = pid, tier, seed, keep
         self.t0 = time.time()
         self.dir = os.path.join(BUILD, pid)
@@ -58,7 +58,7 @@ class Ctx:
         self.extra = {}
         self.known = [k for k in load_known() if k.get('property') == pid and k.get('status', 'known') == 'known']
         import glob
-        for old in glob.glob(os.path.join(VERIF, 'replays', '%s-seed%d-%s-*.json' % (pid, seed, tier))):
+        for old in ([] if replaying else glob.glob(os.path.join(VERIF, 'replays', '%s-seed%d-%s-*.json' % (pid, seed, tier)))):
             try: os.remove(old)
             except OSError: pass
 
@@ -313,7 +313,7 @@ def run_prog(cmd, infile, timeout=3600, env=None):
             return -999, so, 'timeout'
 
 
-def run_cases(ctx, cmd, cases, tag, timeout=300, max_crashes=20):
+def run_cases(ctx, cmd, cases, tag, timeout=1500, max_crashes=20):
     """Run all cases through cmd (stdin protocol). A crash loses the rest: the crashed case gets the single line
     'crash:<kind>' appended and the run resumes after it.  Returns dict idx -> lines, dict idx-> tags, crash list."""
     results, tags, crashes = {}, {}, []
@@ -402,7 +402,7 @@ def shrink_case(case, still_fails, keep_prefix=0, budget=150):
 
 # ---------------------------------------------------------------------------------------------------- correspondence
 def correspondence(ctx, name, impl_cmd, model_cmd, cases, nontrivial=None, keep_prefix=0, classify=None,
-                   canon=None, timeout=300, shrink=True, max_report=3, oracle=None, valid=None):
+                   canon=None, timeout=1500, shrink=True, max_report=3, oracle=None, valid=None):
     """Run the same cases through the real code (impl_cmd) and the Lean model (model_cmd); diff; report.
     classify(case, impl_lines, model_lines) -> (known-finding id, text) or None.
     oracle(case, impl_lines) -> None if the property itself holds on what the real code answered, else a string.
@@ -520,7 +520,7 @@ def run_known_witnesses(ctx, streams, model_cmd, oracle=None, canon=None):
     for k in ctx.known:
         for w in k.get('witnesses', []):
             for name, cmd in streams.items():
-                if w.get('stream') and w['stream'] not in name: continue
+                if w.get('stream') and not (name == w['stream'] or name.startswith(w['stream'] + '_')): continue      # exact stream or family prefix
                 a = run_one(ctx, cmd, w['ops'], 'kf_i'); b = run_one(ctx, model_cmd, w['ops'], 'kf_m')
                 if canon: a, b = canon(a), canon(b)
                 bad = (a != b) or (oracle is not None and bool(oracle(w['ops'], a)))
